@@ -604,6 +604,26 @@ static int t_mpz_bitops (const char *f, int budget)
   printf ("PASS %d\n", budget); return 0;
 }
 
+
+/* __gmp_extract_double: {rp[1],rp[0]} * 2^(64 (e - 2)) == d for positive finite doubles incl. subnormals; the two pieces are exactly representable, so is their sum */
+#include <math.h>
+int __gmp_extract_double (mp_ptr, double);
+static int t_extract_double (const char *f, int budget)
+{
+  for (int it = 0; it < budget; it++)
+    {
+      union { double d; unsigned long u; } x;
+      unsigned long M = (it % 3 == 0) ? (1UL << (rnd64 () % 52)) : (it % 3 == 1) ? (rnd64 () >> (12 + rnd64 () % 52)) : (rnd64 () >> 12);
+      unsigned long E = (it % 4 == 0) ? 0 : (it % 4 == 1) ? rnd64 () % 4 : rnd64 () % 2047;
+      if (E == 0 && M == 0) M = 1;
+      x.u = (E << 52) | M;
+      L R[2]; int e = __gmp_extract_double (R, x.d);
+      double back = ldexp ((double) R[1], 64 * (e - 1)) + ldexp ((double) R[0], 64 * (e - 2));
+      if (back != x.d || R[1] == 0) { failed (f); printf (" d=%a (bits %#lx) -> rp=[%#lx,%#lx] exp=%d, which denotes %a\n", x.d, x.u, (unsigned long) R[0], (unsigned long) R[1], e, back); return 1; }
+    }
+  printf ("PASS %d\n", budget); return 0;
+}
+
 /* mpf_cmp against the sign of an exact difference computed on integers: both operands scaled to a common exponent */
 static void mk_mpf (mpf_t f, int maxn)
 {
@@ -1061,6 +1081,7 @@ int main (int argc, char **argv)
   if (!strcmp (f, "mpz_neg") || !strcmp (f, "mpz_abs") || !strcmp (f, "mpz_set") || !strcmp (f, "mpz_swap")) return t_mpz_copy (f, budget);
   if (!strcmp (f, "mpz_cmp") || !strcmp (f, "mpz_cmpabs")) return t_mpz_cmp (f, budget);
   if (!strcmp (f, "mpz_tstbit") || !strcmp (f, "mpz_scan0") || !strcmp (f, "mpz_scan1")) return t_mpz_bits (f, budget);
+  if (!strcmp (f, "extract_double")) return t_extract_double (f, budget);
   if (!strcmp (f, "mpz_setbit") || !strcmp (f, "mpz_clrbit") || !strcmp (f, "mpz_combit") || !strcmp (f, "mpz_and") || !strcmp (f, "mpz_ior") || !strcmp (f, "mpz_xor")) return t_mpz_bitops (f, budget);
   if ((!strncmp (f, "mpz_fdiv", 8) || !strncmp (f, "mpz_cdiv", 8) || !strncmp (f, "mpz_tdiv", 8)) && strlen (f) >= 2 && !strcmp (f + strlen (f) - 2, "ui")) return t_mpz_div_ui (f, budget);
   if (!strncmp (f, "mpz_fdiv", 8) || !strncmp (f, "mpz_cdiv", 8) || !strcmp (f, "mpz_mod")) return t_mpz_div (f, budget);
